@@ -90,6 +90,11 @@ def build_databases(root):
     R = universe.resources(annot=True)
     for k in ('A1', 'A2', 'X1', 'Y1', 'B1', 'C1'):
         env.add_resource(R[k])
+    # a lexicon with several installed dependencies (the order of its expand lexicons must be stable)
+    env.add_resource(mk.resource([mk.lexicon('d', '1', 'es', requires=[{'id': 'c', 'version': '1'}, {'id': 'a', 'version': '1'},
+                                                                      {'id': 'b', 'version': '1'}, {'id': 'a', 'version': '2'}],
+                                             entries=[mk.entry('d-e1', 'alfa', 'n', senses=[mk.sense('d-s1', 'd-ss1')])],
+                                             synsets=[mk.synset('d-ss1', 'n', 'i1'), mk.synset('d-ss2', 'n', 'i2')])], '1.3'))
     env.add(env.write_file('cili.tsv', universe.ili_tsv()))
     out['uni'] = d
     # DB 'max': the maximal 1.3 and 1.0 documents
@@ -138,7 +143,7 @@ def items(dirs):
     # --- taxonomy / similarity on 'tax'
     def ss(w, i):
         return w.synset(f't-ss{i}')
-    pairs = [(0, 1), (1, 0), (0, 9), (9, 1), (4, 8), (0, 0), (2, 3)]
+    pairs = [(0, 1), (1, 0), (0, 9), (9, 1), (4, 8), (0, 0), (2, 3), (0, 5), (5, 0), (0, 7), (9, 0), (1, 7)]
     for a, b in pairs:
         for simr in (False, True):
             add(f'tax:lch({a},{b},{simr})', 'tax', lambda a=a, b=b, s=simr: (lambda w: tx.lowest_common_hypernyms(ss(w, a), ss(w, b), simulate_root=s))(W(lexicon='t:1')))
@@ -161,7 +166,8 @@ def items(dirs):
         add(f'sim:res/jcn/lin({a},{b})', 'tax', lambda a=a, b=b: (lambda w, f: [sim.res(ss(w, a), ss(w, b), f), sim.jcn(ss(w, a), ss(w, b), f), sim.lin(ss(w, a), ss(w, b), f)])(W(lexicon='t:1'), wn.ic.compute(corpus, W(lexicon='t:1'))))
     # --- queries on every database
     for db, sels in (('tax', [dict(lexicon='t:1')]),
-                     ('uni', [dict(), dict(lexicon='a:1 x:1'), dict(lexicon='a:1 a:2'), dict(lang='en'), dict(lexicon='b:1'), dict(lexicon='*')]),
+                     ('uni', [dict(), dict(lexicon='a:1 x:1'), dict(lexicon='a:1 a:2'), dict(lang='en'), dict(lexicon='b:1'),
+                              dict(lexicon='*'), dict(lexicon='d:1'), dict(lang='es')]),
                      ('max', [dict(lexicon='mx:1.0+a'), dict(lexicon='mo:1.0+a sc:2'), dict()])):
         for k, kw in enumerate(sels):
             tag = f'{db}:{kw or "default"}'
@@ -175,6 +181,7 @@ def items(dirs):
     add('q:module-level:uni', 'uni', lambda: [wn.lexicons(), wn.lexicons(lang='en'), wn.words('alpha'), wn.synsets('alpha', pos='n'), wn.senses('alfa'), wn.ilis(), wn.ilis(status='active'), wn.projects()[:2]])
     add('q:lexicon-info:uni', 'uni', lambda: [[lx, lx.requires(), lx.extends(), lx.extensions(), lx.describe(), lx.metadata()] for lx in wn.lexicons()])
     add('q:describe:uni', 'uni', lambda: W(lexicon='b:1').describe())
+    add('q:describe:uni:d', 'uni', lambda: [W(lexicon='d:1').describe(), W(lexicon='d:1').expanded_lexicons(), W(lang='es').expanded_lexicons()])
     # --- morphy
     add('morphy:uninit', 'tax', lambda: [Morphy()(q, p) for q in ('words1', 'axes', 'boxing', 'taller') for p in (None, 'n', 'v')])
     add('morphy:init', 'tax', lambda: (lambda w: (lambda m: [m(q, p) for q in ('words1', 'word2s', 'word1', 'words0') for p in (None, 'n', 'v')])(Morphy(w)))(W(lexicon='t:1')))
